@@ -359,7 +359,10 @@ func (g *gen) expr(t string, depth int) *Expr {
 		}
 		switch r.Intn(4) {
 		case 0, 1:
-			return eBin("add", g.expr("s", depth-1), g.expr("s", depth-1))
+			// the right operand never contains a variable: a string expression then mentions at most one
+			// string variable, so strings grow linearly - not exponentially - in loops ($s = $s + $s
+			// executed 30 times would be a gigabyte)
+			return eBin("add", g.expr("s", depth-1), eStr([]string{"a", "bc", "Q", "", "x y"}[r.Intn(5)]))
 		case 2:
 			if r.Intn(2) == 0 {
 				return eCall("cstr", g.expr("s", depth-1))
@@ -515,7 +518,10 @@ func (g *gen) setStmt() Stmt {
 	case "b":
 		return Stmt{K: "set", Var: v, Op: "=", E: g.expr("b", g.exprDepth())}
 	default:
-		return Stmt{K: "set", Var: v, Op: []string{"=", "+="}[r.Intn(2)], E: g.expr("s", g.exprDepth())}
+		if r.Intn(2) == 0 {
+			return Stmt{K: "set", Var: v, Op: "+=", E: eStr([]string{"a", "bc", "Q", "", "x y"}[r.Intn(5)])}
+		}
+		return Stmt{K: "set", Var: v, Op: "=", E: g.expr("s", g.exprDepth())}
 	}
 }
 
